@@ -59,6 +59,35 @@ def run(ctx):
     ctx.check(calls == ['split_args', 'parse'], R, 'string-ctor|split_args-then-parse', sc[0], 'a single command-line string is tokenised by split_args, then classified', 'the string constructor calls %s' % calls)
     from props.c08 import check_split_args_quotes
     check_split_args_quotes(ctx, ctx.unit(repo_unit('Strings.cc')), R)
+    # the classified containers are built by parse() alone: a getter that inserts (map operator[],
+    # emplace, ...) makes an absent option "present without a value" for every later getter
+    MUT = ('emplace', 'emplace_back', 'push_back', 'insert', 'try_emplace', 'insert_or_assign', 'erase', 'clear', 'swap', 'resize', 'pop_back', 'operator=')
+    nmut = 0
+    seen_fn = set()
+    for unit_ in (u, w):
+        for f in unit_.functions:
+            q = unit_.qualname(f)
+            if not q.startswith('phosg::Arguments::') or body_of(f) is None or is_dependent_pattern(f, unit_):
+                continue
+            key_f = (f.get('mangledName') or q)
+            if key_f in seen_fn:
+                continue
+            seen_fn.add(key_f)
+            for x in walk(body_of(f)):
+                tgt = None
+                if x.get('kind') == 'CXXOperatorCallExpr' and call_name(x) in ('operator[]', 'operator=') and len(kids(x)) >= 2 and canon(kids(x)[1]) in ('this.named', 'this.positional'):
+                    if call_name(x) == 'operator[]' and canon(kids(x)[1]) == 'this.positional':
+                        continue    # vector subscripts do not insert
+                    tgt = (canon(kids(x)[1]), call_name(x))
+                if x.get('kind') == 'CXXMemberCallExpr' and call_name(x) in MUT and canon(member_call_object(x)) in ('this.named', 'this.positional'):
+                    tgt = (canon(member_call_object(x)), call_name(x))
+                if tgt is None:
+                    continue
+                nmut += 1
+                okm = f.get('name') in ('parse',) or f.get('kind') == 'CXXConstructorDecl'
+                ctx.check(okm, R, '%s|container-built-by-parse-only|%s.%s@%s' % (f.get('name'), tgt[0], tgt[1], x.get('_line')), x, '%s.%s inside %s' % (tgt[0], tgt[1], f.get('name')),
+                          '%s modifies %s through %s: after this call an option that was never given exists with no value, so later getters throw or report it present' % (f.get('name'), tgt[0], tgt[1]))
+    ctx.require(nmut >= 4, 'no insertion into named/positional found (expected in parse)')
     P = u.func('phosg::Arguments::parse')[0]
     ctx.fn('Arguments::parse')
     check_no_goto(P)
